@@ -203,8 +203,10 @@ m("C05-revert-D2-delete-node-keeps-lineage", "C05", "user_actions/user_delete_no
 # per-axis keys no longer break inversion; they still break the internal-format round trip)
 m("C14-revert-D9-per-axis-features-unregistered", "C14", "data_model/tracks.py",
   "                    feature_dict[attr] = {", "                    features[attr] = {")
-m("C05-revert-D15-attributes-not-copied", "C05", "user_actions/user_add_node.py",
-  "        attributes = dict(attributes)\n", "        attributes = attributes\n")
+# (the revert of D15 - attributes dict not copied - is no longer a break of C05: after the
+# D24 repair a stale lineage id left in a reused dict is reconciled like any supplied one)
+m("C05-revert-D24-supplied-lineage-id-trusted", "C05", "user_actions/user_add_node.py",
+  "        if lineage_key is not None:\n            given = attributes.get(lineage_key)", "        if lineage_key is not None and lineage_key not in attributes:\n            given = attributes.get(lineage_key)")
 m("C11-revert-D18-delete-node-saves-registered-only", "C11", "actions/add_delete_node.py",
   "            for key, val in self.tracks.graph.nodes[node].items()\n            if val is not None",
   "            for key, val in self.tracks.graph.nodes[node].items()\n            if val is not None and key in self.tracks.features.node_features")
